@@ -151,6 +151,15 @@ func mkC04() *Scenario {
 			add("DeleteFile1", func(w *World) {
 				w.Store.Mutate(id, func(files map[string]*MemFile) { delete(files, w.G.StoragePath(1)) })
 			})
+			// the file is cut to half its length: unlike a flipped byte the client can see this (the size is wrong
+			// when the file is opened), so nothing is excused
+			add("TruncateFile1", func(w *World) {
+				w.Store.Mutate(id, func(files map[string]*MemFile) {
+					if f := files[w.G.StoragePath(1)]; f != nil {
+						f.Data = append([]byte{}, f.Data[:len(f.Data)/2]...)
+					}
+				})
+			})
 			// a data file cannot be opened any more (permissions, replaced by a directory): the next start fails
 			// during allocation; the torrent must end Stopped with the error and without open files
 			add("BreakFile1", func(w *World) {
@@ -369,7 +378,7 @@ func TestC04(t *testing.T) {
 	if core.Thorough() {
 		depth, devs = 4, 1
 	}
-	rep.Rule = fmt.Sprintf("every sequence of %d operations over {Start,Stop,Verify,Seed,Announce,AddPeer,Stats,AddTracker,Remove,Corrupt0,DeleteFile1,BreakFile1,DeleteAll} (enabled ones) from initial states {fresh, seeded+stopped, partial+stopped} and of one operation less (plus AddPeers2: two addresses with hanging dials, MaxPeerDial 1) from {leeching: running with a connected peer that holds one piece}, each followed by the convergence suffix; plus every execution with <=%d race deviation (a command delivered before the drain finished, or a younger internal event before an older one)", depth, devs)
+	rep.Rule = fmt.Sprintf("every sequence of %d operations over {Start,Stop,Verify,Seed,Announce,AddPeer,Stats,AddTracker,Remove,Corrupt0,DeleteFile1,TruncateFile1,BreakFile1,DeleteAll} (enabled ones) from initial states {fresh, seeded+stopped, partial+stopped} and of one operation less (plus AddPeers2: two addresses with hanging dials, MaxPeerDial 1) from {leeching: running with a connected peer that holds one piece}, each followed by the convergence suffix; plus every execution with <=%d race deviation (a command delivered before the drain finished, or a younger internal event before an older one)", depth, devs)
 	rep.Assumptions = []string{"one torrent, one honest seed, one auto-answering tracker", "handlers are atomic (loop ownership; checked by C20)", "workers run to their next blocking point after every action"}
 	var runs []Run
 	for _, init := range []string{"fresh", "seeded", "partial"} {
